@@ -14,6 +14,9 @@ CLAIMED = {
  "C03": dict(cat="proof", ref="5 C03", tech=TECH,
    text="per serde data-model call, the bytes appended by the real json_ser.rs functions equal a spec of compact JSON, for all inputs and all free-space values: write_all (all-or-nothing), the 256-entry escape table, the escaped-string loop (unbounded; unreachable_unchecked proved unreachable; both from_utf8_unchecked preconditions discharged), every Formatter method, all 30 Serializer methods, all 30 MapKeySerializer methods (integers quoted, strings/chars/unit variants as strings, everything else refused with nothing written), the 15 Compound methods (comma/colon/bracket state machine against the stub Serialize contract), and to_slice against the very contract text that unit write_path assumes; corollary lemma: no byte < 0x20 inside an encoded string",
    note="assumed: the spec enc is a faithful transcription of serde_json's CompactFormatter (cross-checked, not decided, by a differential runner real to_slice vs serde_json::to_vec); itoa/ryu/classify/encode_utf8 contracts; one UTF-8 cut-at-ASCII axiom; slice length <= isize::MAX; monomorphic instance only (N5); user Serialize impls meet the stub contract; lifting to all Serialize values (structural induction) on paper; 'BufferTooSmall only when it does not fit' is proved for every built-in method (leaf writers, escaped strings, byte arrays, all Serializer / MapKeySerializer / Compound methods) and is part of the stub contract assumed of user Serialize impls"),
+ "C05": dict(cat="proof", ref="12 C05", tech=TECH + " (the hand-written Call (de)serialisers against ghost-log stubs of the serde traits)",
+   text="CALL ENVELOPE ONLY (zlink-core/src/call/ser.rs, de.rs): Call::serialize writes ONE map - the method type's own entries in order, then oneway / more / upgrade exactly when set and as true - closes it once, and propagates every error; FlatSerializer forwards keys and values untouched, leaves the envelope open at the inner end(), and each of its 28 other Serializer methods refuses with nothing written (a method type that is not struct- or map-shaped is refused); FilterMap::next_key_seed (unbounded while-let loop, by invariant) shows the method type exactly the members that are not flags, in order, records the last boolean value of each flag wherever it stands, terminates; next_value_seed streams values untouched; visit_map returns flags = last member of that name or false when absent, and a method decoded from the other members only",
+   note="NOT decided: every other part of the property - ReplyError / Reply derive output, 'parameters absent/null/{}', standard service methods and errors, proxy methods without outputs (serde-derive and proc-macro output); the serde traits on both sides and the method type are assumed stubs; round trip on paper + bounded search harness through serde_json"),
  "C06": dict(cat="proof", ref="5 C06", tech=TECH,
    text="Chain::new/append keep call_count/reply_count = number of calls / of non-oneway calls and enqueue each call as one frame; ReplyStream::new starts done iff no reply is owed; the accounting statements of poll_next (extracted fragment) advance the index exactly on a final reply or method error and set done exactly on error or when the owed count is reached; a proved counting lemma shows a conforming reply script is consumed exactly",
    note="assumed/unverified: Chain::send and the pin-projection / unsafe / ready! plumbing of poll_next around the fragment; enqueue_call via its write_path contract; composition with C01 on paper"),
@@ -38,6 +41,9 @@ CLAIMED = {
  "C13": dict(cat="proof", ref="5 C13", tech=TECH,
    text="hand-written part of the parser, for ALL byte strings: the scanners ws (skips exactly the grammar's `_` production), whitespace_only, bytes_to_str, field_name, type_name, interface_name and the look-ahead of inline_type never index out of bounds, never unwrap an Err, terminate, consume exactly the returned token, fail only when no legal token starts the input, and the token is maximal and in its Varlink class; the field loops of type_def and parameter_list terminate and drop no parsed name; method_def / error_def only consume; parse_from_str accepts only when nothing but whitespace/comments remains",
    note="NOT decided: everything built from winnow combinators (alt, separated): the type grammar, interface_def's member loop, comment_def, source order; winnow leaves (multispace0, literal, take_while), from_utf8, position/contains and the IDL node constructors are assumed stubs; underscore placement in field names is a known finding"),
+ "C20": dict(cat="proof", ref="12 C20", tech=TECH + " (the zlink code around the runtime channels; channel semantics assumed)",
+   text="ADAPTER AND STATE CODE ONLY, for both runtime crates: poll_next of the notified Stream - a subscription item is delivered tagged continues=true with exactly the channel's value, lag notices are skipped and never end the subscription (unbounded loop, by invariant over the ghost poll trace), it ends only when the channel reports closed; a one-shot reply is tagged continues=false, afterwards the stream is over and the channel is not polled again; State::new builds a capacity-1 (smol: overflow on, await_active off) channel and keeps it open; State::set stores the value and hands exactly it to that channel, in call order, and cannot panic whether or not anyone is subscribed; stream() subscribes to that same channel; Once::new pairs sender and stream on one channel",
+   note="NOT decided: the property's quantifier (interleavings of writers and lagging readers) - the semantics of tokio broadcast / BroadcastStream / oneshot and async_broadcast / async_channel are assumed as ghost-state stubs; 'eventually the most recent value' and 'tokio and smol identical' follow on paper; an exhaustive schedule search (<= 6 operations, <= 3 subscribers, real crates and channels) cross-checks and finds witnesses, bounded and not counted as proved"),
  "C17": dict(cat="proof", ref="5 C17", tech=TECH,
    text="inbound and outbound buffer length <= MAX_BUFFER_SIZE on every exit; BufferOverflow only when the undelivered / pending bytes reach the limit; refused outbound message leaves pending bytes and log unchanged; proved for the production constants",
    note="assumed: vstd Vec specs, to_slice contract; serde_json heap use and Vec capacity not covered"),
